@@ -466,6 +466,29 @@ func runC05(c *h.Ctx) {
 		for _, e := range h.Entries {
 			universal(c, e, ec.P, ec.Text, doc, opts, ec.Case(), subvals)
 		}
+		if i%4 == 3 {
+			// nothing of a call outlives it: the same Path called next without
+			// any option answers as a freshly parsed copy that has never been
+			// called does (no variables, no WithTZ, no WithSilent left over)
+			orderOpen := (exposesOrder(ec.Abs) || strings.Contains(ec.Text, "keyvalue")) && (hasMultiMemberObject(doc) || varsHaveMultiMember(opts.Vars) || strings.Contains(ec.Text, "keyvalue"))
+			if fresh, err, pan := h.ParseSafe(ec.Text); err == nil && pan == "" && !orderOpen {
+				e := h.Entries[(i/4)%len(h.Entries)]
+				used := h.Call(e, ec.P, doc, h.Opts{})
+				clean := h.Call(e, fresh, doc, h.Opts{})
+				c.Eval(2)
+				same := used.Class == clean.Class && used.Bool == clean.Bool && (used.Class == h.OK || used.ErrText() == clean.ErrText())
+				if used.Class == h.OK && clean.Class == h.OK && !exposesOrder(ec.Abs) && !strings.Contains(ec.Text, "keyvalue") {
+					same = same && h.CanonListTyped(used.Items) == h.CanonListTyped(clean.Items) && h.CanonTyped(used.Val) == h.CanonTyped(clean.Val)
+				}
+				if used.Class != h.Panic && clean.Class != h.Panic && !same {
+					ccs := ec.Case()
+					ccs.Vars, ccs.Silent, ccs.TZ, ccs.Zone, ccs.Entry = "", false, false, "", e
+					c.Violate("context", h.F("kind", "left-over-of-an-earlier-call", "entry", e), fmt.Sprintf("%s(%s) without options, on a Path that was called with options before: %s; on a freshly parsed copy: %s", e, ec.Text, used.Summary(), clean.Summary()), ccs)
+				} else {
+					c.Held("context")
+				}
+			}
+		}
 		if i == 0 {
 			c.Sample("random", map[string]any{"path": ec.Text, "doc": ec.Doc})
 		}
